@@ -248,7 +248,9 @@ def _builtin(ex, st, c, callee, args, fn):
         return NONE
     m = re.match(r'^(?:std::option::|core::option::)?Option::(\w+)$', c)
     if m:
-        k = m.group(1); v = args[0]
+        k = m.group(1); v = _val(ex, st, args[0])
+        if not isinstance(v, Enum):
+            return NotImplemented
         d = v.disc()
         if k in ('is_some', 'is_none'):
             return d == 1 if k == 'is_some' else d == 0
@@ -269,7 +271,9 @@ def _builtin(ex, st, c, callee, args, fn):
             return Enum(1 - d, pl)
     m = re.match(r'^(?:std::result::|core::result::)?Result::(\w+)$', c)
     if m:
-        k = m.group(1); v = args[0]
+        k = m.group(1); v = _val(ex, st, args[0])
+        if not isinstance(v, Enum):
+            return NotImplemented
         d = v.disc()
         if k in ('is_ok', 'is_err'):
             return d == 0 if k == 'is_ok' else d == 1
